@@ -69,3 +69,16 @@ func (r *resolver) Feed(path string, data *[]byte) {
 }
 
 func (r *resolver) Current() api.Uris { return r.c.VerifCurrentUris(r.cluster) }
+
+func (r *resolver) FeedService(data *[]byte) {
+	events := make(chan d2.TreeCacheEvent)
+	var wg sync.WaitGroup
+	wg.Add(1)
+	go func() {
+		defer wg.Done()
+		r.c.VerifFeedServiceEvents(r.service, events)
+	}()
+	events <- d2.TreeCacheEvent{Path: d2.ServicesPath(r.service), Data: data}
+	close(events)
+	wg.Wait()
+}
